@@ -232,6 +232,116 @@ def awaitObj (s : State) (i : Nat) (o : Obj) (me : Ptr) : State :=
     -- install_queue_and_call: await_suspend(h).resume(), then flush_queue() by the trailer
     { flushAll (resumeAll (awaitQueue { s with active := true } i o me) [popValue s o]) with active := false }
 
+inductive Res where
+  | unit
+  | bad                       -- precondition of the operation violated: nothing done
+  | handle (h : Option Ptr)   -- pop(): `none` = noop_coroutine
+  | num (n : Nat)
+  | flag (b : Bool)
+  | gone                      -- a value that has been moved from was read
+  | threw                     -- the operation was left by an exception (`std::bad_alloc` / the callable's own), caught by the caller
+  deriving DecidableEq, Repr
+
+/-! ### faults: allocation failure and exceptions out of callables
+
+A *fault plan* makes one `new Ptr[n]` of an operation throw `std::bad_alloc` (the caller catches it and goes on using
+the same objects); a *throwing callable* is a function run under a freshly installed queue
+(`coro_queue::install_queue_and_call(fn)`, `coro_queue::create_suspend_point(fn)`) that ends by throwing after it has
+made coroutines ready. -/
+
+inductive FOp where
+  | addF (i : Nat) (h : Ptr)                -- `sp_i << h` while the next `new[]` fails
+  | mergeF (i j : Nat) (k : Nat)            -- `sp_i << std::move(sp_j)` / `sp_i = std::move(sp_j)` (base) while the
+                                            -- `k`-th (0-based) `new[]` of the operation fails
+  | call (hs : List Ptr) (j : Option Nat) (throws : Bool)
+      -- `coro_queue::install_queue_and_call(fn)`: `fn` makes the coroutines `hs` ready (`coro_queue::resume`), then
+      -- `sp_j.clear()` (if `j` is given), then returns or throws
+  | createX (hs : List Ptr)                 -- `coro_queue::create_suspend_point(fn)`, `fn` makes `hs` ready and throws
+  | isActive                                -- `coro_queue::is_active()`
+  deriving DecidableEq, Repr
+
+/-- `add` on this object calls `new[]`: inline storage full, or heap storage at capacity -/
+def needsAlloc (o : Obj) : Bool :=
+  if o.cf % 2 = 1 then o.cf / 2 == o.cap else !(decide (o.cf / 2 < inlineCount))
+
+/-- the loop `for (i = 0; i < count; i++) add(other[i])` of `operator<<` while the `k`-th `new[]` from now fails:
+the state when the loop has ended (`none`) or is left by `std::bad_alloc` (`some m`, `m` = the value of the loop
+counter `i` = number of handles already added; `m0` = its value at entry) -/
+def addAllF (s : State) (i : Nat) : List Ptr → Nat → Nat → State × Option Nat
+  | [], _, _ => (s, none)
+  | h :: t, k, m0 =>
+      match s.obj i with
+      | none => (s, none)
+      | some o =>
+          if needsAlloc o then
+            if k = 0 then (s, some m0) else addAllF (add s i h) i t (k - 1) (m0 + 1)
+          else addAllF (add s i h) i t k (m0 + 1)
+
+/-- the handler of `operator<<` (/repo fix "merging … under bad_alloc"): `_count_flag -= 2*i` — the handles taken
+over so far are dropped from the target again (they still belong to the source); storage that was acquired on the way
+(spill to the heap, doublings) is kept -/
+def undoAdds (s : State) (i : Nat) (m : Nat) : State :=
+  match s.obj i with
+  | none => s
+  | some o => setObj s i (some { o with cf := o.cf - 2 * m })
+
+/-- `sp_i << std::move(sp_j)` (two distinct objects) under the fault plan `k` -/
+def stepMergeF (s : State) (i j : Nat) (oj : Obj) (k : Nat) : State × Res :=
+  match addAllF s i (handlesOf s oj) k 0 with
+  | (s1, none) => (clearInternal s1 j oj, Res.unit)
+  | (s1, some m) => (undoAdds s1 i m, Res.threw)
+
+/-- the unrepaired `operator<<` had no handler: the exception left the handles added so far in the target *and* in
+the source -/
+def stepMergeFAsIs (s : State) (i j : Nat) (oj : Obj) (k : Nat) : State × Res :=
+  match addAllF s i (handlesOf s oj) k 0 with
+  | (s1, none) => (clearInternal s1 j oj, Res.unit)
+  | (s1, some _) => (s1, Res.threw)
+
+/-- the coroutines `hs` are made ready by `coro_queue::resume` under an installed queue: handed in (ghost), queued -/
+def ready (s : State) (hs : List Ptr) : State := enqueue { s with given := s.given ++ hs } hs
+
+/-- body of the callable of `FOp.call`, run with the queue installed -/
+def callBody (s : State) (hs : List Ptr) (j : Option Nat) : State :=
+  match j with
+  | none => ready s hs
+  | some j =>
+      match s.obj j with
+      | none => ready s hs
+      | some o => suspendNow (ready s hs) j o
+
+/-- `install_queue_and_call(fn)`: `instance` is pointed at the thread's queue, `fn` runs; whether it returns or throws, the
+`trailer` object's destructor flushes the queue and restores `instance` (`prev`) -/
+def stepCall (s : State) (hs : List Ptr) (j : Option Nat) : State :=
+  { flushAll (callBody { s with active := true } hs j) with active := s.active }
+
+/-- `FOp.call` names a slot that holds no object -/
+def callRefused (s : State) (j : Option Nat) : Bool :=
+  match j with
+  | some j => (s.obj j).isNone
+  | none => false
+
+def stepF (s : State) (f : FOp) : State × Res :=
+  match f with
+  | FOp.addF i h =>
+      match s.obj i with
+      | some o =>
+          -- `new Ptr[count*2]` is the first statement of both growth paths that touches anything: nothing has changed
+          if needsAlloc o then (s, Res.threw) else (add { s with given := s.given ++ [h] } i h, Res.unit)
+      | none => (s, Res.bad)
+  | FOp.mergeF i j k =>
+      match s.obj i, s.obj j with
+      | some _, some oj => if i = j then (s, Res.unit) else stepMergeF s i j oj k
+      | _, _ => (s, Res.bad)
+  | FOp.call hs j throws =>
+      if callRefused s j then (s, Res.bad)
+      else (stepCall s hs j, if throws then Res.threw else Res.unit)
+  | FOp.createX hs =>
+      -- under a queue: `fn()` throws inside `create_suspend_point`, the (empty) local `ss` is destroyed, what `fn` queued
+      -- stays queued; in normal mode the whole thing runs inside `install_queue_and_call`
+      (if s.active then ready s hs else stepCall s hs none, Res.threw)
+  | FOp.isActive => (s, Res.flag s.active)
+
 /-! ### operations -/
 
 inductive Op where
@@ -260,15 +370,7 @@ inductive Op where
   | create (i : Nat) (hs : List Ptr) (v : Option Nat)
       -- sp_i = coro_queue::create_suspend_point(fn), `fn` makes the coroutines `hs` ready (coro_queue::resume, in
       -- that order) and returns nothing (`v = none`: suspend_point<void>) or the value `v` (suspend_point<X>)
-  deriving DecidableEq, Repr
-
-inductive Res where
-  | unit
-  | bad                       -- precondition of the operation violated: nothing done
-  | handle (h : Option Ptr)   -- pop(): `none` = noop_coroutine
-  | num (n : Nat)
-  | flag (b : Bool)
-  | gone                      -- a value that has been moved from was read
+  | fault (f : FOp)                        -- operations under a fault plan / with a throwing callable, see `FOp`
   deriving DecidableEq, Repr
 
 /-- a fresh object can be constructed in slot `i` -/
@@ -402,6 +504,7 @@ def step (s : State) (op : Op) : State × Res :=
       | some o => if o.typed then (s, readVal o) else (s, Res.bad)
       | none => (s, Res.bad)
   | Op.finish => if s.active then (flushAll s, Res.unit) else (s, Res.unit)
+  | Op.fault f => stepF s f
   | Op.create i hs v =>
       -- `create_suspend_point`: under a queue (installed temporarily in normal mode) `fn` runs, the handles it made ready
       -- went to the back of the ready queue; they are taken off again front to back from the position where the queue ended
